@@ -44,7 +44,11 @@ _BASE_CFG = None
 def base_config():
     global _BASE_CFG
     if _BASE_CFG is None:
-        stub = Path(tempfile.mkdtemp(prefix="jslcfg")) / "stub.py"
+        import atexit
+        import shutil
+        d = tempfile.mkdtemp(prefix="jslcfg")
+        atexit.register(shutil.rmtree, d, True)      # one stub per process; removed when the process ends
+        stub = Path(d) / "stub.py"
         _BASE_CFG = load_config(config_path=Path(REPO) / "data/config/default_config.yaml",
                                 stub_file_path=stub, frozen=True)
     return _BASE_CFG
